@@ -698,3 +698,158 @@ Example float_ok_1_5 md : FloatOk md [49; 46; 53].                            Pr
 Example float_ok_neg_2_5em07 md : FloatOk md [45; 50; 46; 53; 101; 45; 48; 55]. Proof. float_ok. Qed.
 Example float_ok_1ep22 md : FloatOk md [49; 101; 43; 50; 50].                 Proof. float_ok. Qed.
 Example float_ok_0_0 md : FloatOk md [48; 46; 48].                            Proof. float_ok. Qed.
+
+(* ---------- the shape of float.__repr__: for these tokens the float oracle is a theorem ---------- *)
+(* [-] int-part [. digits] [e (+|-) digits] with a fraction or an exponent; int-part is 0 or has no leading zero *)
+Definition ip_ok (ip : text) : Prop :=
+  ip = [48] \/ (exists d ds, ip = d :: ds /\ forallb is_digit (d :: ds) = true /\ d <> 48).
+Definition frac_ok (frac : text) : Prop :=
+  frac = [] \/ (exists d ds, frac = 46 :: d :: ds /\ forallb is_digit (d :: ds) = true).
+Definition exp_ok (ex : text) : Prop :=
+  ex = [] \/ (exists sg d ds, ex = 101 :: sg :: d :: ds /\ (sg = 43 \/ sg = 45) /\ forallb is_digit (d :: ds) = true).
+Inductive FloatShape : text -> Prop :=
+| float_shape (neg : bool) (ip frac ex : text) :
+    ip_ok ip -> frac_ok frac -> exp_ok ex -> (frac <> [] \/ ex <> []) ->
+    FloatShape ((if neg then [45] else []) ++ ip ++ frac ++ ex).
+
+Lemma take_digits_run (d : N) (ds tail : text) : forallb is_digit (d :: ds) = true -> no_digit_ahead tail ->
+  take_digits (d :: ds ++ tail) [] = (d :: ds, tail).
+Proof. intros H1 H2. change (d :: ds ++ tail) with ((d :: ds) ++ tail). now rewrite take_digits_spec. Qed.
+
+Lemma scan_number_float (md : nat) (neg : bool) (ip frac ex rest : text) :
+  ip_ok ip -> frac_ok frac -> exp_ok ex -> (frac <> [] \/ ex <> []) -> term_ahead rest ->
+  scan_number md ((if neg then [45] else []) ++ ip ++ frac ++ ex ++ rest) =
+  Some (POk (JFloat ((if neg then [45] else []) ++ ip ++ frac ++ ex)) rest).
+Proof.
+  unfold ip_ok, frac_ok, exp_ok. intros Hip Hfr Hex Hsome Ht.
+  (* the tail after each run of digits does not begin with a digit *)
+  assert (Hrest : no_digit_ahead rest) by now apply term_no_digit.
+  assert (Hexrest : no_digit_ahead (ex ++ rest)).
+  { destruct Hex as [-> | (sg & d & ds & -> & _)]; [exact Hrest|reflexivity]. }
+  assert (Hfrexrest : no_digit_ahead (frac ++ ex ++ rest)).
+  { destruct Hfr as [-> | (d & ds & -> & _)]; [exact Hexrest|reflexivity]. }
+  (* the exponent part *)
+  set (EX := fun (r2 : text) =>
+    match r2 with
+    | e :: r' =>
+        if (e =? 101) || (e =? 69) then
+          let '(sg, r'') := match r' with 43 :: q => ([43], q) | 45 :: q => ([45], q) | _ => ([], r') end in
+          match r'' with
+          | d :: _ => if is_digit d then let '(ed, r4) := take_digits r'' [] in (e :: sg ++ ed, r4) else ([], r2)
+          | [] => ([], r2)
+          end
+        else ([], r2)
+    | [] => ([], r2)
+    end).
+  assert (HEX : EX (ex ++ rest) = (ex, rest)).
+  { unfold EX. destruct Hex as [-> | (sg & d & ds & -> & Hsg & Hd)].
+    - cbn [app]. destruct rest as [|c r]; [reflexivity|]. destruct Ht as [-> | [-> | ->]]; reflexivity.
+    - pose proof Hd as Hd'. cbn [forallb] in Hd'. apply andb_true_iff in Hd' as [Hd1 _].
+      destruct Hsg as [-> | ->]; cbn [app]; change ((101 =? 101) || (101 =? 69)) with true; cbv iota;
+        rewrite Hd1, (take_digits_run d ds rest Hd Hrest); reflexivity. }
+  (* the fraction part *)
+  set (FR := fun (r1 : text) =>
+    match r1 with
+    | 46 :: d :: r' => if is_digit d then let '(fd, r'') := take_digits (d :: r') [] in (46 :: fd, r'') else ([], r1)
+    | _ => ([], r1)
+    end).
+  assert (HFR : FR (frac ++ ex ++ rest) = (frac, ex ++ rest)).
+  { unfold FR. destruct Hfr as [-> | (d & ds & -> & Hd)].
+    - cbn [app]. destruct Hex as [-> | (sg & d & ds & -> & _)].
+      + cbn [app]. destruct rest as [|c r]; [reflexivity|]. destruct Ht as [-> | [-> | ->]]; reflexivity.
+      + reflexivity.
+    - pose proof Hd as Hd'. cbn [forallb] in Hd'. apply andb_true_iff in Hd' as [Hd1 _].
+      cbn [app]. rewrite Hd1. change (d :: ds ++ ex ++ rest) with (d :: ds ++ (ex ++ rest)).
+      rewrite (take_digits_run d ds (ex ++ rest) Hd Hexrest). reflexivity. }
+  (* the integer part *)
+  assert (Hhead : exists c r, ip = c :: r /\ is_digit c = true).
+  { destruct Hip as [-> | (d & ds & -> & Hd & _)]; [exists 48, []; auto|].
+    cbn [forallb] in Hd. apply andb_true_iff in Hd as [Hd _]. eauto. }
+  destruct Hhead as (c & r & Eip & Hc).
+  assert (Hc45 : (c =? 45) = false) by (unfold is_digit in Hc; lia).
+  assert (HIP : (if c =? 48 then ([48], tl (ip ++ frac ++ ex ++ rest)) else take_digits (ip ++ frac ++ ex ++ rest) [])
+                = (ip, frac ++ ex ++ rest)).
+  { destruct Hip as [-> | (d & ds & -> & Hd & Hd48)].
+    - injection Eip as <- <-. reflexivity.
+    - injection Eip as <- <-. assert (E : (d =? 48) = false) by lia. rewrite E.
+      change ((d :: ds) ++ frac ++ ex ++ rest) with (d :: ds ++ (frac ++ ex ++ rest)).
+      now rewrite (take_digits_run d ds _ Hd Hfrexrest). }
+  assert (Hnonint : match frac, ex with
+                    | [], [] => @None (presult json)
+                    | _, _ => Some (POk (JFloat ((if neg then [45] else []) ++ ip ++ frac ++ ex)) rest)
+                    end = Some (POk (JFloat ((if neg then [45] else []) ++ ip ++ frac ++ ex)) rest)).
+  { destruct frac, ex; try reflexivity. destruct Hsome; contradiction. }
+  subst ip. cbn [app] in HIP. unfold FR in HFR. cbv beta in HFR. unfold EX in HEX. cbv beta in HEX. clear FR EX.
+  unfold scan_number. rewrite match_45.
+  destruct neg; cbn [app].
+  - change (45 =? 45) with true. cbv iota. rewrite Hc, HIP. cbv beta iota zeta.
+    match goal with |- (let '(a, b) := ?X in _) = _ => replace X with (frac, ex ++ rest) by (symmetry; exact HFR) end.
+    cbv beta iota zeta.
+    match goal with |- (let '(a, b) := ?X in _) = _ => replace X with (ex, rest) by (symmetry; exact HEX) end.
+    cbv beta iota zeta.
+    destruct frac, ex; try reflexivity. destruct Hsome; contradiction.
+  - rewrite Hc45, Hc, HIP. cbv beta iota zeta.
+    match goal with |- (let '(a, b) := ?X in _) = _ => replace X with (frac, ex ++ rest) by (symmetry; exact HFR) end.
+    cbv beta iota zeta.
+    match goal with |- (let '(a, b) := ?X in _) = _ => replace X with (ex, rest) by (symmetry; exact HEX) end.
+    cbv beta iota zeta.
+    destruct frac, ex; try reflexivity. destruct Hsome; contradiction.
+Qed.
+
+Lemma float_shape_head t : FloatShape t ->
+  exists c r, t = c :: r /\ (c = 45 \/ is_digit c = true) /\ print_float t = t.
+Proof.
+  intros [neg ip frac ex Hip Hfr Hex Hs].
+  assert (Hh : exists c r, ip = c :: r /\ is_digit c = true).
+  { destruct Hip as [-> | (d & ds & -> & Hd & _)]; [exists 48, []; auto|].
+    cbn [forallb] in Hd. apply andb_true_iff in Hd as [Hd _]. eauto. }
+  destruct Hh as (c & r & -> & Hc). unfold print_float, text_eqb.
+  destruct neg; cbn [app].
+  - exists 45, (c :: r ++ frac ++ ex). split; [reflexivity|]. split; [now left|].
+    cbn [list_eqb]. change (45 =? 110) with false. change (45 =? 105) with false. change (45 =? 45) with true.
+    cbn [andb]. assert (E : (c =? 105) = false) by (unfold is_digit in Hc; lia). rewrite E. reflexivity.
+  - exists c, (r ++ frac ++ ex). split; [reflexivity|]. split; [now right|].
+    cbn [list_eqb].
+    assert (E1 : (c =? 110) = false) by (unfold is_digit in Hc; lia).
+    assert (E2 : (c =? 105) = false) by (unfold is_digit in Hc; lia).
+    assert (E3 : (c =? 45) = false) by (unfold is_digit in Hc; lia).
+    rewrite E1, E2, E3. reflexivity.
+Qed.
+
+(* for every token of the shape float.__repr__ produces, the float oracle holds *)
+Theorem float_shape_ok md t : FloatShape t -> FloatOk md t.
+Proof.
+  intros Hsh. destruct (float_shape_head t Hsh) as (c & r & Et & Hc & Hp). split.
+  - intros fuel depth rest Ht. rewrite Hp.
+    assert (Hn : scan_number md (t ++ rest) = Some (POk (JFloat t) rest)).
+    { destruct Hsh as [neg ip frac ex Hip Hfr Hex Hs].
+      pose proof (scan_number_float md neg ip frac ex rest Hip Hfr Hex Hs Ht) as Hn.
+      rewrite <- !app_assoc. exact Hn. }
+    replace (t ++ rest) with (c :: r ++ rest) in * by (rewrite Et; reflexivity).
+    apply pv_number; try exact Hn; unfold is_digit in Hc; destruct Hc; lia.
+  - rewrite Hp. exists c, r. split; [exact Et|]. unfold is_ws, is_digit in *. destruct Hc as [-> | Hc]; repeat split; lia.
+Qed.
+
+Example float_shape_examples :
+  FloatShape [49; 46; 53] /\ FloatShape [45; 50; 46; 53; 101; 45; 48; 55] /\ FloatShape [49; 101; 43; 50; 50] /\
+  FloatShape [48; 46; 48] /\ FloatShape [45; 48; 46; 48].
+Proof.
+  split; [apply (float_shape false [49] [46; 53] []); unfold ip_ok, frac_ok, exp_ok|].
+  { right. exists 49, []. repeat split; try reflexivity; discriminate. }
+  { right. exists 53, []. split; reflexivity. }
+  { now left. }
+  { left. discriminate. }
+  split; [apply (float_shape true [50] [46; 53] [101; 45; 48; 55]); unfold ip_ok, frac_ok, exp_ok|].
+  { right. exists 50, []. repeat split; try reflexivity; discriminate. }
+  { right. exists 53, []. split; reflexivity. }
+  { right. exists 45, 48, [55]. repeat split; auto. }
+  { left. discriminate. }
+  split; [apply (float_shape false [49] [] [101; 43; 50; 50]); unfold ip_ok, frac_ok, exp_ok|].
+  { right. exists 49, []. repeat split; try reflexivity; discriminate. }
+  { now left. }
+  { right. exists 43, 50, [50]. repeat split; auto. }
+  { right. discriminate. }
+  split; [apply (float_shape false [48] [46; 48] []); unfold ip_ok, frac_ok, exp_ok|
+          apply (float_shape true [48] [46; 48] []); unfold ip_ok, frac_ok, exp_ok].
+  all: try (now left); try (right; exists 48, []; split; reflexivity); try (left; discriminate).
+Qed.
